@@ -212,9 +212,9 @@ SHAPES_PLANS = {
                      ("dmulti", "e2n4", ["--nofiles"]), ("umulti", "e2n5", ["--nofiles"]), ("dweighted", "e2n4", ["--nofiles"]), ("uweighted", "e2n5", ["--nofiles"])],
     },
     "C09": {
-        "quick": [(c, "n2", []) for c in PLAIN6] + [("dir_NoLabel", "n3", []), ("und_NoLabel", "n3", [])] + [(c, "n3d3", []) for c in ("dir_int", "und_int", "dir_string", "und_string")] +
+        "quick": [(c, "n2", []) for c in ALL10] + [("dir_NoLabel", "n3", []), ("und_NoLabel", "n3", [])] + [(c, "n3d3", []) for c in ("dir_int", "und_int", "dir_string", "und_string")] +
                  [(c, "ctor", ["--len", "2"]) for c in ALL10 + ["dir_struct", "und_struct"]] + [(c, "ctorlong", []) for c in ALL10 + ["dir_struct", "und_struct"]] + [(c, "big", []) for c in PLAIN6],
-        "thorough": [(c, "n2", []) for c in PLAIN6] + [(c, "n3", []) for c in PLAIN6] + [(c, "ctor", ["--len", "3"]) for c in ALL10 + ["dir_struct", "und_struct"]] +
+        "thorough": [(c, "n2", []) for c in ALL10] + [(c, "n3d3", []) for c in ("dmulti", "umulti", "dweighted", "uweighted")] + [(c, "n3", []) for c in PLAIN6] + [(c, "ctor", ["--len", "3"]) for c in ALL10 + ["dir_struct", "und_struct"]] +
                     [(c, "ctorlong", []) for c in ALL10 + ["dir_struct", "und_struct"]] + [(c, "big", []) for c in PLAIN6],
     },
     "C10": {
@@ -228,7 +228,7 @@ SHAPES_RULE = {
     "C08": "case = one graph (a reachable state of the E1 search on <=3 vertices, every insertion order; or every edge set on 4 (directed) / 5 (undirected) vertices built in ascending, descending and swapped order): "
            "vertex range-for, edges() by pre-/post-increment, repeated traversal, begin()==end(), multiset of edges vs. model, and every operation defined by edge enumeration (in-degrees, adjacency matrix, "
            "reversal, conversions, text and binary writers) must be defined and right. Non-trivial = the graph has at least one edge.",
-    "C09": "case = one graph state (E1 search, all labellings over a 2-value alphabet, with setEdgeLabel in the histories) checked for reversal, reversal twice, directed<->undirected conversions, copies; "
+    "C09": "case = one graph state (E1 search, all labellings over a 2-value alphabet, with setEdgeLabel in the histories) checked for reversal, reversal twice, directed<->undirected conversions, and (all ten classes) copy construction / copy assignment over empty and non-empty targets / self-assignment / move construction / move assignment; "
            "or one edge sequence of length <= L over indices {0,1,2,4} x values, with repeats, passed to the edge-list constructor in vector/list/deque/forward_list/set/multiset and compared with one-at-a-time insertion. "
            "Non-trivial = graph with an edge / sequence of at least two edges.",
     "C10": "case = (graph, vertex subset S [, a preceding rejected call with an out-of-range member and subset T]): getSubgraph and getSubgraphWithRemap compared with the induced subgraph of the model "
